@@ -19,14 +19,15 @@ LIT = 'facts about string literals (axiom_literals*, e.g. lower("Host") == "host
 
 M_BODYW = ['util', 'body', 'client::call', 'client::flow']
 M_BODYR = ['util', 'chunk', 'body', 'client::call', 'client::flow']
+M_CODING = M_BODYR + ['coding']
 M_HEAD = ['util', 'body', 'ext', 'client::amended', 'client::call', 'client::flow']
 
 PROPS = {
     'C01': {
-        'modules': ['util', 'chunk', 'body', 'parser', 'client::call', 'client::flow', 'lemmas'],
-        'explanation': 'Corollary of the step contracts: every resumable step is verified against a schedule-free spec function of its own resumable state (head_step for the head writer: remaining-head == emitted ++ remaining-head\'; post_write_body for body writes; exact-mapping contracts for the head parsers; min3 / passthrough copies for the readers), so two schedules cannot disagree; composition lemmas in module `lemmas` (head, Content-Length body, close-reason trace) are proved by induction over arbitrary call lists; read-only queries are proved to leave the flow unchanged. NOT proved: the whole-coding composition for chunked response bodies (see C07) and anything about what httparse accepts.',
+        'modules': ['util', 'chunk', 'body', 'parser', 'client::call', 'client::flow', 'lemmas', 'coding'],
+        'explanation': 'Corollary of the step contracts: every resumable step is verified against a schedule-free spec function of its own resumable state (head_step for the head writer: remaining-head == emitted ++ remaining-head\'; post_write_body for body writes; exact-mapping contracts for the head parsers; min3 / passthrough copies for the readers), so two schedules cannot disagree; composition lemmas are proved by induction over arbitrary call lists: head (lemma_head_schedule_independent), Content-Length request body (lemma_sized_history), Content-Length response body (lemma_len_history), chunked response body (coding::lemma_chunked_history), close-reason trace (lemma_close_trace); read-only queries are proved to leave the flow unchanged. NOT proved: a composition lemma for the chunked REQUEST body across several writes (each write is proved to emit a valid chunking of exactly what it consumed) and anything about what httparse accepts.',
         'assumptions': [VERUS, USIZE, WRITER_MODEL, FMT, HTTP, HTTPARSE, ITER, PRE],
-        'bounded': ['chunked response body composition (shared with C07)'],
+        'bounded': ['whole-exchange schedules (twins of C02, C03, C04, C05, C07, C08)'],
     },
     'C02': {
         'modules': M_HEAD,
@@ -57,10 +58,10 @@ PROPS = {
         'bounded': ['Transfer-Encoding list expression: native exhaustive run over the C06 menu'],
     },
     'C07': {
-        'modules': M_BODYR,
-        'explanation': 'all of chunk.rs and BodyReader::read_chunked verified: each state handler step-exact against the chunked grammar token it consumes (size line incl. extension and hex value, data copy = min of three, CRLF, trailer line, final CRLF); parse_input / read_chunked: counts in bounds, produced bytes are a subsequence in order of the consumed ones, one call of parse_input (and one read with boundary stopping) produces ONE contiguous piece of the input (never data of two chunks), an ended decoder consumes nothing, termination, decoder state well-formed even after an error. NOT proved: the composition lemma over a whole coding witness (total output == payload, total consumed == |coding|).',
-        'assumptions': [VERUS, USIZE, STR, 'Iterator::position / take (rule N9 stubs slice_position, slice_take_position)'],
-        'bounded': ['whole-coding composition (payload equality, exact consumption, ended-iff): native small-scope grammar run'],
+        'modules': M_CODING,
+        'explanation': 'all of chunk.rs and BodyReader::read_chunked verified: each state handler step-exact against the chunked grammar token it consumes; parse_input and read_chunked are proved to be EXACTLY the spec-level interpreters spec_parse / spec_read (functions of decoder state, window, room, boundary stop); module `coding` then proves, purely over those interpreters, for ANY valid coding (token witness: size lines <= 20 bytes without CR whose hex part denotes the data length, data, CRLFs, last-chunk line, trailer lines, final CRLF) followed by anything, ANY arrival schedule and ANY output sizes (lemma_chunked_history, by induction over the list of reads): no read fails, the outputs concatenate to a prefix of the payload and to exactly the payload at the end, the consumed total never exceeds the coding and is the decoder position, ended <=> the whole coding incl. its final CRLF was consumed, and with boundary stopping no single read spans two chunks. lemma_coding_witness shows the validity predicate is inhabited. For ARBITRARY bytes: counts, copy-in-order (lemma_parse_basic / lemma_read_basic), termination, decoder state well-formed even on error.',
+        'assumptions': [VERUS, USIZE, STR, 'Iterator::position / take (rule N9 stubs slice_position, slice_take_position)', 'the schedule model of lemma_chunked_history: the caller re-presents unconsumed bytes (each window starts at the bytes consumed so far), as the property states'],
+        'bounded': ['the same statement exercised natively over a small-scope grammar x cuts x buffer sizes (regression / replay only)'],
     },
     'C08': {
         'modules': M_BODYR + ['lemmas'],
